@@ -110,3 +110,22 @@ pub fn c13_rtype_bitmap_one_add_bounded() {
     assert!(len == ((t1 & 0xFF) / 8) as usize + 1 && s.len() == 2 + len);
     assert!(s[2 + len - 1] == 0x80 >> (t1 & 7));
 }
+
+/// RRSIG Labels field (RFC 4034 3.1.3) on the compiled code: `ToName::rrsig_label_count` of a three-label owner
+/// `a.b.c.` counts the labels without the root and without a LEFTMOST asterisk label only.
+/// Bounded: fixed label layout (three one-octet labels and the root), all content octets.
+#[kani::proof]
+#[kani::unwind(8)]
+pub fn c12_rrsig_label_count_fixed_layout_bounded() {
+    use domain::base::name::{Name, ToName};
+    let a: [u8; 3] = kani::any();
+    let name = Name::from_octets([1u8, a[0], 1, a[1], 1, a[2], 0]).unwrap();
+    let expect = if a[0] == b'*' { 2 } else { 3 };
+    kani::cover!(a[0] != b'*' && a[1] == b'*');
+    kani::cover!(a[0] == b'*' && a[1] == b'*');
+    assert!(name.rrsig_label_count() == expect);
+    let root = Name::from_octets([0u8]).unwrap();
+    assert!(root.rrsig_label_count() == 0);
+    let wild = Name::from_octets([1u8, b'*', 0]).unwrap();
+    assert!(wild.rrsig_label_count() == 0);
+}
